@@ -540,6 +540,14 @@ def graph_sig(p):
     return out
 
 
+def base_sig(kind):
+    """signature of a freshly built parser of this kind (the builder is deterministic: computed once)"""
+    cache = _ENV.setdefault("base_sig", {})
+    if kind not in cache:
+        cache[kind] = contextvars.Context().run(lambda: graph_sig(build_parser(kind)))
+    return cache[kind]
+
+
 def sig_diff(a, b, pre=""):
     if type(a) is not type(b):
         return [pre or "."]
@@ -701,10 +709,6 @@ def classify_level(kind, level, toks):
         if fails:
             break
     return out, unrec, late
-
-
-def mentions(x, key):
-    return key in json.dumps(x)
 
 
 def tail_of(kind, inp):
@@ -898,7 +902,7 @@ class Session:
         """hist: [(parser index, op)] -> per step dict(reused, fresh, state, sigdiff, mop)"""
         def body():
             parsers = [build_parser(k) for k in self.kinds]
-            base = [graph_sig(build_parser(k)) for k in self.kinds]
+            base = [base_sig(k) for k in self.kinds]
             steps = []
             argv_of = {}
             for n, (pi, op) in enumerate(hist):
@@ -1034,8 +1038,8 @@ def alphabet(kind, small):
 
     rng = random.Random(20240909)
     ops = []
-    ks = KINDS if not small else ["pa_ok", "pa_fail", "pa_pc", "pa_pc_fail", "pa_help", "pa_class_help", "po_ok", "po_fail", "ps_ok", "pe_fail",
-                                 "dump", "validate_fail", "instantiate", "defaults"]
+    ks = KINDS if not small else ["pa_ok", "pa_fail", "pa_pc", "pa_pc_fail", "pa_class_help", "po_ok", "po_fail", "pe_fail",
+                                 "dump", "validate_fail", "instantiate"]
     for k in ks:
         for _ in range(1 if small else 2):
             ops.append(gen_op(rng, kind, k))
@@ -1175,7 +1179,7 @@ def run(ctx: Ctx):
             for combo in itertools.product(al3, repeat=3):
                 ex_batch.append(([kind], [(0, o) for o in combo]))
     ctx.extra["exhaustive_short_histories"] = len(ex_batch)
-    n_random = ctx.budget(150, 2200) * (2 if boost > 1 else 1)
+    n_random = ctx.budget(100, 1500) * (2 if boost > 1 else 1)
     rnd = []
     for _ in range(n_random):
         r = ctx.rng.random()
